@@ -6,6 +6,8 @@ import PV.Spec.Map
 import PV.Lemmas.Table
 import PV.Model.Substitute
 import PV.Lemmas.Substitute
+import PV.Model.MVocab
+import PV.Lemmas.MVocab
 /-
 C13 — the seen-set answers membership correctly after any insertion history.
 Property theorems only; the invariant and the proofs are in PV/Lemmas/Table.lean.
@@ -108,5 +110,39 @@ example : substitute [[97,9,98,9,99,9,100,9,86,49,9,120], [101,9,102,9,99,9,100,
 example : spec [[97,9,98,9,99,9,100,9,86]] = none := by decide +kernel      -- five fields
 
 end Substitute
+
+/-! ### util::MutableVocab (word ids of train_case / apply_case / truecase): values stay attached to their keys -/
+section MVocab
+open PV.MVocab
+
+/-- FindOrInsert over any word list (no word hashing to 0) never fails and hands out the first-occurrence ids 1, 2, …;
+afterwards Size() is one more than the number of distinct keys and Find answers that id, 0 (kUNK) for unknown words -/
+theorem mvocab_refines (ws : List Word) (h0 : ∀ w ∈ ws, key w ≠ 0) :
+    ∃ v, insertAll init ws = some ((specInsertAll [] ws).1, v) ∧
+      v.strings.length = (specInsertAll [] ws).2.length + 1 ∧
+      (∀ w, key w ≠ 0 → find v w = some (specFind (specInsertAll [] ws).2 w)) :=
+  PV.Lemmas.MVocab.insertAll_refines ws h0
+
+/-- two positions receive the same id exactly when their words have the same key, and ids are dense in 1..#distinct -/
+theorem mvocab_ids (ws : List Word) :
+    (∀ i j, i < ws.length → j < ws.length →
+      (((specInsertAll [] ws).1.getD i 0 = (specInsertAll [] ws).1.getD j 0) ↔ key (ws.getD i []) = key (ws.getD j []))) ∧
+    (∀ x ∈ (specInsertAll [] ws).1, 1 ≤ x ∧ x ≤ (specInsertAll [] ws).2.length) :=
+  ⟨fun i j hi hj => PV.Lemmas.MVocab.spec_ids_eq_iff ws i j hi hj, PV.Lemmas.MVocab.spec_ids_range ws⟩
+
+/-- `String(FindOrInsert(w)) = w` for every position of the input, at the end of the run: the stored string stays attached to its id -/
+theorem mvocab_strings_attached (ws : List Word) (h0 : ∀ w ∈ ws, key w ≠ 0)
+    (hinj : ∀ a ∈ ws, ∀ b ∈ ws, key a = key b → a = b) (ids : List Nat) (v : V)
+    (hr : insertAll init ws = some (ids, v)) :
+    ∀ i, i < ws.length → v.strings.getD (ids.getD i 0) [] = ws.getD i [] :=
+  PV.Lemmas.MVocab.strings_attached ws h0 hinj ids v hr
+
+/-- the carve-out is real: the empty word's key IS 0 (MutableVocab answers kUNK for it) -/
+theorem mvocab_empty_word_key_zero : key [] = 0 := PV.Lemmas.MVocab.empty_word_key_zero
+
+-- non-vacuity: "a" "b" "a" get 1 2 1 and the hypotheses hold for them
+example : (insertAll init [[97], [98], [97]]).map (fun r => (r.1, r.2.strings)) = some ([1, 2, 1], [unk, [97], [98]]) := by decide +kernel
+example : key [97] ≠ 0 ∧ key [98] ≠ 0 ∧ key [97] ≠ key [98] := by decide +kernel
+end MVocab
 
 end PV.Props.C13
